@@ -5,7 +5,7 @@
 EXTENDS Cleaner, TLC, Json
 
 CONSTANTS MaxRecs, MaxBatch, MaxOps, MaxEpoch, CapSet, KeySet, AgeSet, MsgsSet, BytesSet,
-          CompactSet, LagSet, BigSet, MaxCleans, MaxTicks, UseWindow, UseReopen, UseEpochs
+          CompactSet, LagSet, BigSet, MaxCleans, MaxTicks, UseWindow, UseReopen, UseEpochs, UseReaders
 VARIABLES last, nRecs, nOps, nCleans, nTicks
 mcvars == <<cvars, last, nRecs, nOps, nCleans, nTicks>>
 
@@ -65,6 +65,17 @@ MCCleanEnd == DoCleanEnd /\ Step([a |-> "CleanEnd"]) /\ UNCHANGED <<nRecs, nClea
 
 MCReopen == UseReopen /\ CReopen /\ Step([a |-> "Reopen"]) /\ UNCHANGED <<nRecs, nCleans, nTicks>>
 
+\* persistent readers: created at any offset, drained at any time outside a pending
+\* clean; only without retention limits (see CDrain)
+MCNewReader(r, s, c) ==
+  /\ UseReaders /\ ~HasLimits(cc) /\ ~rd[r].alive
+  /\ c => s >= 0        \* a committed reader is only ever started at a real offset
+  /\ CNewReader(r, s, c) /\ Step([a |-> "NewReader", r |-> r, s |-> s, c |-> c])
+  /\ UNCHANGED <<nRecs, nCleans, nTicks>>
+MCDrain(r) ==
+  /\ UseReaders /\ CDrain(r) /\ Step([a |-> "Drain", r |-> r])
+  /\ UNCHANGED <<nRecs, nCleans, nTicks>>
+
 \* a pending clean is always completed: when the budget is nearly used up only
 \* CleanEnd remains
 Room == pend.on => nOps < MaxOps - 1
@@ -80,6 +91,8 @@ MCNext ==
   \/ MCCleanBegin
   \/ MCCleanEnd
   \/ MCReopen
+  \/ \E r \in Readers, s \in -1..(Newest + 1), c \in BOOLEAN : MCNewReader(r, s, c)
+  \/ \E r \in Readers : MCDrain(r)
 
 MCSpec == MCInit /\ [][MCNext]_mcvars
 
@@ -89,6 +102,7 @@ StepOK ==
     [] a.a = "SetHW" -> P_SetHW(a.h)
     [] a.a = "Clean" -> P_Clean(Snapshot)
     [] a.a = "CleanEnd" -> P_Clean(pend)
+    [] a.a = "Drain" -> P_Drain(a.r)
     [] OTHER -> P_Same
 StepsOK == [][StepOK]_mcvars
 
@@ -96,5 +110,5 @@ StepsOK == [][StepOK]_mcvars
 \* the only way the specification of the code may break C08_Survivors
 Tainted(b) == \E i \in DOMAIN b.log : b.log[i].key = "empty"
 
-MCView == <<cfg, log, segs, hw, epochs, ro, cc, now, pend, nRecs, nOps, nCleans, nTicks>>
+MCView == <<cfg, log, segs, hw, epochs, ro, rd, cc, now, pend, nRecs, nOps, nCleans, nTicks>>
 =============================================================================
